@@ -172,7 +172,7 @@ def check_case(case):
     import xyzpy as xyz
 
     B, have = case["B"], case["have"]
-    d = core.fresh_dir("c16")
+    d = core.fresh_dir("c16.results[1]")
     w = CropWorld(B, d)
     w.grow_have(have)
     if case.get("cli"):
